@@ -87,6 +87,17 @@ def build_case(seed, i):
             tr.append((f'u{k}', ':ARG0', f'u{(k + 1) % 3}'))
     rng.shuffle(tr)
     h = Graph(tr, top=vs[0])
+    # a second decoded graph over the same variable pool (it shares node names with g, each with its
+    # own markers): the union of the two has variables pushed twice
+    rng2 = random.Random(f'{seed}:C17:second:{i}')
+    node2 = T.rand_tree(rng2, rm, roles=roles, p_aln=0.2, n_nodes=rng2.choice([2, 3, 4]))
+    h.decoded_partner = layout.interpret(Tree(node2), model)
+    # ... and one read from a text that defines variables twice (two valid node contexts per variable)
+    dup = T.mangle(rng2, T.rand_tree(rng2, rm, roles=roles, p_aln=0.0, n_nodes=rng2.choice([3, 4, 5])), rm, special_inverse=False)
+    try:
+        h.dup_partner = layout.interpret(Tree(dup), model)
+    except Exception:
+        h.dup_partner = h.decoded_partner
     return g, h, model, rm, vs, mname
 
 
@@ -119,6 +130,14 @@ def operations(g, h, model, vs):
         'reify_edges': lambda: transform.reify_edges(g, model),
         'dereify(reify)': lambda: transform.dereify_edges(transform.reify_edges(g, model), model),
         'dereify_edges': lambda: transform.dereify_edges(g, model),
+        # union of two decoded graphs, then written out (the union's marker table is filled in set order)
+        'encode(g|g2)': lambda: _try(lambda: penman.encode(g | h.decoded_partner, model=model)),
+        'node_contexts(g2|g)': lambda: layout.node_contexts(h.decoded_partner | g),
+        'encode(empty|dup)': lambda: _try(lambda: penman.encode(Graph() | h.dup_partner, model=model)),
+        'encode(g|dup)': lambda: _try(lambda: penman.encode(g | h.dup_partner, model=model)),
+        # a refused model operation leaves the model as it was
+        'model_refuses_dereify': lambda: _model_refusal(model),
+        'model_state': lambda: _model_state(model),
         'reify_attributes_h': lambda: transform.reify_attributes(h),
         'reify_attributes(reify_edges)': lambda: transform.reify_attributes(transform.reify_edges(g, model)),
         'indicate_branches': lambda: transform.indicate_branches(g, model),
@@ -144,6 +163,28 @@ def operations(g, h, model, vs):
         'interpret_default_tree': lambda: layout.interpret(penman.Tree(layout.configure(g, model=model).node), model),
         'canonicalize_roles': lambda: transform.canonicalize_roles(layout.configure(g, model=model), model),
     }
+
+
+def _model_state(model):
+    return (sorted(map(repr, model.roles)), sorted(map(repr, model.normalizations.items())),
+            sorted((k, repr(v)) for k, v in model.reifications.items() if v),
+            sorted((k, repr(v)) for k, v in model.dereifications.items() if v),
+            sorted(k for k in model.reifications), sorted(k for k in model.dereifications),
+            [model.is_concept_dereifiable(c) for c in ('no-such-concept-91', 'have-mod-91', 'alpha')],
+            [model.is_role_reifiable(r) for r in (':no-such-role', ':mod', ':ARG0')])
+
+
+def _model_refusal(model):
+    from penman.exceptions import ModelError
+    out = []
+    for f in (lambda: model.dereify(('x', ':instance', 'no-such-concept-91'), ('x', ':ARG1', 'a'), ('x', ':ARG2', 'b')),
+              lambda: model.reify(('a', ':no-such-role', 'b')),
+              lambda: model.dereify(('x', ':instance', 'alpha'), ('x', ':ARG1', 'a'), ('x', ':ARG2', 'b'))):
+        try:
+            out.append(repr(f()))
+        except ModelError as e:
+            out.append('ModelError')
+    return out + [_model_state(model)]
 
 
 def _annotate(node):
